@@ -375,6 +375,79 @@ theorem regInv_fresh1 (reg : Reg W) (g g' : Genome W) (r : Innov W) (x1 x2 : Gen
       exact ⟨fun ti => (by rw [hrt] at ti; cases ti), fun ti => (by rw [hrt] at ti; cases ti),
              fun _ _ => ⟨fun _ => ⟨rfl, rfl⟩, fun _ => ⟨rfl, rfl⟩, (by omega)⟩⟩
 
+/-! ### node ids are unique in a well-formed genome -/
+
+theorem node_unique (nodes : List Node) (hs : NodesSorted nodes) (n m : Node) (hn : n ∈ nodes) (hm : m ∈ nodes)
+    (hid : n.id = m.id) : n = m := by
+  unfold NodesSorted at hs
+  induction nodes with
+  | nil => simp at hn
+  | cons a t ih =>
+    rw [List.pairwise_cons] at hs
+    rcases List.mem_cons.mp hn with rfl | hn' <;> rcases List.mem_cons.mp hm with rfl | hm'
+    · rfl
+    · have := hs.1 m hm'; omega
+    · have := hs.1 n hn'; omega
+    · exact ih hs.2 hn' hm'
+
+theorem not_mem_nodeIds_of_hasNode (g : Genome W) (id : Int) (h : g.hasNode id = false) : id ∉ nodeIds g := by
+  intro hm
+  have : (nodeById g.nodes id).isSome = true := by
+    unfold nodeById
+    rw [List.find?_isSome]
+    obtain ⟨n, hn, e⟩ := List.mem_map.mp hm
+    exact ⟨n, List.mem_reverse.mpr hn, by simp [e]⟩
+  unfold Genome.hasNode at h
+  rw [this] at h; cases h
+
+/-- the node split: a new hidden node `n` between `a` and `b` with the genes `a → n` and `n → b` -/
+theorem addSplit_wft (g : Genome W) (n : Node) (x1 x2 : Gene W) (hw : WFT g)
+    (hnid : n.id ∉ nodeIds g) (hnk : n.isSensor = false) (hnt : TraitRefOk g n.trait)
+    (h1 : x1.dst = n.id ∧ x1.src ∈ nodeIds g ∧ TraitRefOk g x1.trait)
+    (h2 : x2.src = n.id ∧ x2.dst ∈ nodeIds g ∧ TraitRefOk g x2.trait)
+    (h2s : ∀ m ∈ g.nodes, m.id = x2.dst → m.isSensor = false)
+    (hi1 : ∀ y ∈ g.genes, y.inn ≠ x1.inn) (hi2 : ∀ y ∈ g.genes, y.inn ≠ x2.inn) (hi12 : x1.inn ≠ x2.inn) :
+    WFT { g with genes := geneInsert (geneInsert g.genes x1) x2, nodes := nodeInsert g.nodes n } := by
+  have hnid' : ∀ m ∈ g.nodes, m.id ≠ n.id := fun m hm e => hnid (List.mem_map.mpr ⟨m, hm, e⟩)
+  have w2 := addNode_wft g n hw hnid' hnt
+  have hmemN : ∀ m, m ∈ nodeInsert g.nodes n ↔ m = n ∨ m ∈ g.nodes := fun m => mem_insertAt _ _ _ _
+  have hsubN : ∀ i ∈ nodeIds g, i ∈ nodeIds ({ g with nodes := nodeInsert g.nodes n } : Genome W) := by
+    intro i hi
+    obtain ⟨m, hm, e⟩ := List.mem_map.mp hi
+    exact List.mem_map.mpr ⟨m, (hmemN m).mpr (Or.inr hm), e⟩
+  have hnin : n.id ∈ nodeIds ({ g with nodes := nodeInsert g.nodes n } : Genome W) :=
+    List.mem_map.mpr ⟨n, (hmemN n).mpr (Or.inl rfl), rfl⟩
+  have hdstOld : ∀ y ∈ g.genes, y.dst ≠ n.id := fun y hy e => hnid (e ▸ (hw.wf.endpoints y hy).2)
+  have hsrcOld : ∀ y ∈ g.genes, y.src ≠ n.id := fun y hy e => hnid (e ▸ (hw.wf.endpoints y hy).1)
+  have w3 := addGene_wft ({ g with nodes := nodeInsert g.nodes n } : Genome W) x1 w2 hi1
+    (fun y hy e => by
+      unfold Gene.link at e; simp only [Prod.mk.injEq] at e
+      exact hdstOld y hy (by rw [e.2.1, h1.1]))
+    (hsubN _ h1.2.1) (by rw [h1.1]; exact hnin)
+    (fun m hm e => by
+      rcases (hmemN m).mp hm with rfl | hm'
+      · exact hnk
+      · exact absurd (by rw [e, h1.1]) (hnid' m hm'))
+    h1.2.2
+  have hmemG : ∀ y, y ∈ geneInsert g.genes x1 ↔ y = x1 ∨ y ∈ g.genes := fun y => mem_insertAt _ _ _ _
+  have w4 := addGene_wft ({ g with nodes := nodeInsert g.nodes n, genes := geneInsert g.genes x1 } : Genome W) x2 w3
+    (fun y hy => by
+      rcases (hmemG y).mp hy with rfl | hy'
+      · exact hi12
+      · exact hi2 y hy')
+    (fun y hy e => by
+      unfold Gene.link at e; simp only [Prod.mk.injEq] at e
+      rcases (hmemG y).mp hy with rfl | hy'
+      · exact hnid (by rw [← h2.1, ← e.1]; exact h1.2.1)
+      · exact hsrcOld y hy' (by rw [e.1, h2.1]))
+    (by rw [h2.1]; exact hnin) (hsubN _ h2.2.1)
+    (fun m hm e => by
+      rcases (hmemN m).mp hm with rfl | hm'
+      · exact absurd (e ▸ h2.2.1) hnid
+      · exact h2s m hm' e)
+    h2.2.2
+  exact w4
+
 /-! ### retention of the input/bias/output nodes -/
 
 theorem Retains.of_nodes_eq (g g' : Genome W) (h : g'.nodes = g.nodes) : Retains g g' := by
